@@ -19,7 +19,10 @@ def jsonEscape (s : String) : String := (s.replace "\\" "\\\\").replace "\"" "\\
       match env.getModuleIdxFor? n with
       | some idx =>
         let m := mods[idx.toNat]!
-        if (`ModbusProofs.Properties).isPrefixOf m && !n.isInternalDetail then
+        -- equation lemmas that Lean generates for definitions (`f.eq_def`, `f.eq_1`, …) are not obligations of a property
+        let last := match n with | .str _ s => s | _ => ""
+        let generated := last == "eq_def" || (last.startsWith "eq_" && (last.drop 3).all Char.isDigit)
+        if (`ModbusProofs.Properties).isPrefixOf m && !n.isInternalDetail && !generated then
           let ax ← liftCoreM (collectAxioms n)
           let axs := ", ".intercalate (ax.toList.map fun a => "\"" ++ jsonEscape a.toString ++ "\"")
           items := items.push s!"\{\"name\": \"{jsonEscape n.toString}\", \"module\": \"{m}\", \"axioms\": [{axs}]}"
